@@ -78,7 +78,7 @@ RULES = {
         "C07": "families A and D (incl. the stop()-timeout and concurrent-unsubscribe scenarios of C03); non-trivial iff >=2 producers, >=2 pipeline phases populated and (>=1 run-time registration followed by a dispatch of the registering thread, or an unsubscribe() during the stream); " + SCHED,
         "C08": "families A and G with reader threads and reads inside subscriber/middleware callbacks; 1/25 of family A scenarios have a subscriber panicking inside on_notify of the k-th action (only C08 is judged there); non-trivial iff >=20 reads matched, one reader saw >=3 distinct positions and >=1 read was made inside a subscriber callback; " + SCHED,
         "C09": "families D, G (+ deterministic witness W0): direct/channeled/selector subscribers and iterators added and removed while 1-4 producers run; barrier-released concurrent unsubscribes, a panicking on_unsubscribe followed by stop(), stale handles used again after a replacement was registered; non-trivial iff an unsubscribe() interval overlapped a notification of another subscriber; " + SCHED,
-        "C10": "family D: subscribed()/subscribed_with() capacity 1-4 x 3 policies, direct twin registered right after, stalled (gated) drop-policy subscriber (released before stop() or 0.7-1.4 s after stop() was invoked), unsubscribe/stop at random points, poisoned subscriber list; non-trivial iff the subscriber's channel was full at least once (discard, delivery lagging by >= capacity, or progress while stalled); " + SCHED,
+        "C10": "family D: subscribed()/subscribed_with() capacity 1-4 x 3 policies and capacity 0 (rendezvous) under the blocking policy, direct twin registered right after, stalled (gated) drop-policy subscriber (released before stop() or 0.7-1.4 s after stop() was invoked), unsubscribe/stop at random points, poisoned subscriber list; non-trivial iff the subscriber's channel was full at least once (discard, delivery lagging by >= capacity, or progress while stalled); " + SCHED,
         "C11": "family E (+ witness W1): reducers return 0-4 effects per chain of all four kinds, thunks dispatching follow-ups, panicking and gated effects, middleware removing effects, client dispatch_task/thunk, stop with and without backlog (natively a stop() that gives up after its timeout although every gate was open, with work going on after it returned, is a violation); non-trivial iff >=2 effect kinds ran, >=1 follow-up was reduced and >=1 action issued >=2 effects; family T (native): 8-32 threads hammer dispatch_task/dispatch_thunk on an idle store while one thread calls stop() (or close(); stop()) in the middle and for a while after it - no task twice, every task handed over before stop() was invoked has run when it returns, no task begins after stop() returned; non-trivial iff submitting calls fell before, across and after the stop() (distinct = thread count/kind and how many calls fell before / across stop() and ran); " + SCHED,
         "C12": "family F: exhaustive enumeration of the verdict assignments {Continue,Done,Break,Err}^(3M) for M=1..3 middlewares x {Dispatch,Keep} (64+4096+262144 assignments x 2), one action per pair on a live store in seed-shuffled order with effect/removal variants; in every fifth batch with M>=2 the last middleware is registered with add_middleware() from another thread while middleware 0 is parked inside before_reduce of a first action; non-trivial = every batch (all pairs are checked against the reference model); distinct = distinct enumeration batch of 2048 pairs (conservative: see assignment_answer_pairs_executed for the pair count)",
         "C13": "family B (stop-race programs: a stop() left to its timeout with the loop still running is reported, natively also one that returns before the loop has ended although nothing was parked or slow, or although the reducer - parked with a full queue until 3.4 s after the call - had been released and the join had not used up its time) and family G: 2-4 client threads running random programs over the whole public API, each ending with stop(), in a third of the blocking-policy scenarios preceded by a phase in which every thread hammers a capacity-1/2 queue and thread 0 calls iter() in the middle of it ; natively a stop() of >= 2.5 s that returns before the loop's last act is reported (+ witnesses W2, W3 of the known iterator findings); non-trivial iff >=3 client threads and >=4 operation kinds; " + SCHED,
